@@ -78,6 +78,9 @@ def task(seed):
         import traceback
 
         exc = "%s: %s" % (type(e).__name__, str(e)[:200])
+        frames = traceback.extract_tb(e.__traceback__)
+        if frames and "/phyclone/" not in frames[-1].filename and "site-packages" not in frames[-1].filename:
+            exc = "HARNESS " + exc + " at %s:%d" % (frames[-1].filename, frames[-1].lineno)
     finally:
         info = shadow.info()
         shadow.uninstall()
@@ -104,6 +107,8 @@ def run(ctx):
                 evict[n] += max(0, m - cur)
         sig += out["sigs"]
         ctx.merge_counts("fault_kinds_fired", out["fired"])
+        if out["exc"] and out["exc"].startswith("HARNESS"):
+            raise runner.HarnessError("cache-shadow workload failed inside the harness (seed %d): %s" % (out["seed"], out["exc"]))
         if out["exc"]:
             ctx.probe("workload_raised_left_to_C19")
         for key, detail in out["problems"]:
